@@ -26,6 +26,11 @@ def _frames(T):
         yield [c[0] for c in combo], [c[1] for c in combo]
 
 
+def pre_build():
+    import translate
+    return [translate.gen_events()]
+
+
 def gen_cases(rng, tier):
     cases = []
     if tier == 'search':
